@@ -61,6 +61,21 @@ class ListOfT(T):
         self.name = name
 
 
+class RecordT(T):
+    """Element type of a symbolic list of dict records {field: Int | BytesT(base)}."""
+
+    def __init__(self, **fields):
+        self.fields = fields
+
+
+class HeapT(T):
+    """heapq list of (offset:int, data:bytes-view of `base`) tuples, abstracted to the multiset
+    count[(offset, length)] (data is determined by offset/length: data == base[o:o+l])."""
+
+    def __init__(self, base):
+        self.base = base
+
+
 class ConcreteListT(T):
     """Python list of known length with element types."""
 
